@@ -35,6 +35,12 @@ def family(rng, fam):
     if fam == "memo":
         x = [1, 2]
         return pickle.dumps(rng.choice([[x, x, {"k": x}], [[i] for i in range(260)], {"a": (x, x)}]), rng.choice([0, 1, 2, 4]))
+    if fam == "reinjected":      # a pickle that already went through two default-mode injections (same memo key written twice)
+        import fickling.fickle as fk
+        p = fk.Pickled.load(pickle.dumps([1, 2, {"k": 3}], rng.choice([2, 4])))
+        p.insert_python_eval("0")
+        p.insert_python_eval("0")
+        return p.dumps()
     return rng.choice([b"N.", b"K\x07.", b"I01\n.", b"I42\n.", b"].", b"\x88."])
 
 
